@@ -351,6 +351,24 @@ def corpus_programs():
     return out
 
 
+def corpus_items():
+    """corpus/C03/*.as: minimised past disagreements, run first.  Header lines `--# key: ..`, `--# levels: ..`,
+    `--# expect-out: <json string>`, `--# expect-status: ok|fail`."""
+    d = os.path.join(C.VERIF, "corpus", ID)
+    items = []
+    for f in sorted(os.listdir(d)) if os.path.isdir(d) else []:
+        if not f.endswith(".as"):
+            continue
+        txt = open(os.path.join(d, f)).read()
+        meta = dict(re.findall(r"^--# (\S+): (.*)$", txt, re.M))
+        it = {"name": f[:-3], "src": txt, "key": meta.get("key"), "kind": "corpus", "ctx": "", "halt": None,
+              "levels": [int(x) for x in meta.get("levels", "0,1,2,3,5,9").split(",")], "features": ["corpus"]}
+        if "expect-out" in meta:
+            it["oracle"] = {"out": json.loads(meta["expect-out"]), "status": meta.get("expect-status", "ok")}
+        items.append(it)
+    return items
+
+
 # ------------------------------------------------------------------ generate + proof
 
 def generate(exe):
@@ -493,7 +511,6 @@ def run(rep, tier):
         p["oracle"] = {"out": p["expect_out"], "status": p["expect_status"]}
         feat.update(p["features"])
     ends = [ending_program(rng, KINDS[i % len(KINDS)], CONTEXTS[i % len(CONTEXTS)]) for i in range(n_end)]
-    ends.append(MINUS_ONE)
     for p in ends:
         feat.update(p["features"])
     corp = corpus_programs()
@@ -503,6 +520,10 @@ def run(rep, tier):
         corp = sorted(corp, key=lambda x: hashlib.sha1(("%d/%s/%s" % (C.seed(), x[0], x[1])).encode()).hexdigest())[:n_corp]
 
     jobs = []
+    kept = corpus_items()
+    for it in kept:
+        for q in it["levels"]:
+            jobs.append(("kept-%s" % it["name"], it, "aldor", q))
     for p in progs:
         for q in LEVELS:
             jobs.append(("mini-%d" % p["seed"], p, "aldor", q))
@@ -532,7 +553,11 @@ def run(rep, tier):
             incomparable.append("%s -Q%d: %s" % (tag, q, det[:80]))
         if v != "disagree":
             continue
-        if fam == "mini":
+        if fam == "kept":
+            report("kept program %s at -Q%d: %s" % (p["name"], q, det),
+                   {"how_to_replay": "./check C03 --replay <this file>", "src": p["src"], "level": q, "lib": "aldor",
+                    "oracle": p.get("oracle"), "observed": brief(res)}, key=p.get("key"), group="kept:" + p["name"])
+        elif fam == "mini":
             bad_mini.setdefault(p["seed"], (p, q, res, det))
         elif fam == "end":
             report("ending program (%s in %s%s) at -Q%d: %s" % (p["kind"], p["ctx"],
@@ -590,7 +615,7 @@ def run(rep, tier):
                      "executable are pairwise equal and equal to the oracle's (where there is one)",
                 samples=[{"tag": j[0], "level": j[3], "verdict": v} for j, r, v, d in results[:12]],
                 input_distribution={
-                    "levels": LEVELS, "mini_programs": len(progs), "ending_programs": len(ends),
+                    "levels": LEVELS, "kept_programs": len(kept), "mini_programs": len(progs), "ending_programs": len(ends),
                     "corpus_programs": len(corp), "corpus_total": n_corpus_total,
                     "triples": n_cmp, "verdicts": dict(verdicts),
                     "verdicts_per_family": {k: dict(v) for k, v in per_family.items()},
